@@ -393,6 +393,85 @@ def replay_one_reporter(seq):
     return False, "every callback saw the complete account of its own extraction, close() returned"
 
 
+def events_parallel(mp):
+    """the thread-/process-parallel branch (archive opened by path, two folders): every member still gets its start and end
+    event in the session's queue.  Workers run one after the other (one schedule); a worker PROCESS works on copies of its
+    arguments - a plain queue.Queue is not shared with it"""
+    r = ObResult(bounds="archive ff/1+1 opened by path, mp=%s, extractall with a callback; sizes symbolic; one schedule" % mp)
+    eng = RC.mk_engine(unroll=1)
+    sym = RC.symbols(eng, "ff")
+
+    def harness(e):
+        entries, layout = RC.build(e, "ff", [1, 1], {}, sym)
+        z, fp, w = X.setup_read(e, entries, layout, consume="all-at-once", name="arch.7z", mp=mp)
+        try:
+            e.method(z, "extractall", callback=_Callback(), factory=X.StubFactory(w))
+        except ModelRaise as ex:
+            return dict(exc=ex.name + str(ex.eargs)[:60])
+        return dict(q=list(z.attrs["q"].items), entries=entries)
+
+    def post(o):
+        if "exc" in o:
+            return False
+        q = o["q"]
+        c = [len(q) >= 2 and q[0][0] == "pre" and q[-1][0] == "post"]
+        for en in o["entries"]:
+            c.append(sum(1 for it in q if it[0] == "s" and it[1] == en["name"]) == 1)
+            c.append(sum(1 for it in q if it[0] == "e" and it[1] == en["name"]) == 1)
+        return c
+
+    decide(eng, harness, post, RC.inputs_of(sym, "ff", [1, 1]), r, describe=lambda o: o.get("exc") or " ".join(it[0] for it in o["q"]))
+    _cex(r, "events_parallel", lambda w_: dict(module="vf.props.c18", func="replay_events_parallel", kwargs=dict(mp=mp)),
+         signature=lambda w_: {"obligation": "events_parallel", "mp": mp})
+    return r
+
+
+def replay_events_parallel(mp):
+    import os
+    import shutil
+    import tempfile
+
+    import py7zr
+    from py7zr.callbacks import ExtractCallback
+
+    class CB(ExtractCallback):
+        def __init__(self):
+            self.ev = []
+
+        def report_start_preparation(self):
+            self.ev.append("pre")
+
+        def report_start(self, p, b):
+            self.ev.append("s:" + p)
+
+        def report_update(self, b):
+            self.ev.append("u")
+
+        def report_end(self, p, b):
+            self.ev.append("e:" + p)
+
+        def report_postprocess(self):
+            self.ev.append("post")
+
+        def report_warning(self, m):
+            self.ev.append("w")
+
+    d = tempfile.mkdtemp(prefix="vf_c18p_")
+    try:
+        p = os.path.join(d, "a.7z")
+        with py7zr.SevenZipFile(p, "w", filters=[{"id": py7zr.FILTER_COPY}]) as z:
+            z.writestr(b"A" * 100, "m0")
+        with py7zr.SevenZipFile(p, "a", filters=[{"id": py7zr.FILTER_COPY}]) as z:
+            z.writestr(b"B" * 100, "m1")
+        cb = CB()
+        with py7zr.SevenZipFile(p, mp=mp) as z:
+            z.extractall(os.path.join(d, "out"), callback=cb)
+        bad = any(cb.ev.count(x) != 1 for x in ("s:m0", "e:m0", "s:m1", "e:m1"))
+        return bad, "mp=%s: the callback saw %s" % (mp, cb.ev)
+    finally:
+        shutil.rmtree(d, ignore_errors=True)
+
+
 def reporter_dispatch():
     """the real reporter() loop on a recorded queue: each item kind reaches the right callback method, in order; stops at
     the sentinel; queue.Empty timeouts (symbolic) change nothing; close() posts the sentinel and joins"""
@@ -493,6 +572,8 @@ def replay_reporter():
 def units(tier):
     M = "vf.props.c18"
     us = [Unit("reporter_dispatch", M, "reporter_dispatch", {}, 600)]
+    for mp_ in (False, True):
+        us.append(Unit("events_parallel[mp=%s]" % mp_, M, "events_parallel", dict(mp=mp_), 900))
     for sq in (["A", "ARA", "ARE"] if tier == "quick" else ["A", "E", "ARA", "ARE", "ERA", "ARARA"]):
         us.append(Unit("one_reporter[%s]" % sq, M, "one_reporter", dict(seq=sq), 900))
     shapes = [("ff", [2], {}), ("ff", [1, 1], {}), ("fdf", [2], {}), ("fef", [1, 1], {"emptyfile_vector": True})]
